@@ -51,8 +51,16 @@ pub fn prefix_touches_link(model: &Model, base: &str, expr: &str, rooted: bool) 
     else {
         return true;
     };
+    // the base itself may be a link to a directory (the caller chose it as the place to walk;
+    // walking it is not "descending into a linked directory"): only components below it count
+    // (dot-prefixed globs leave the base; they are never drawn from a link base, so everything on
+    // their prefix counts)
+    let dotted = expr.split('/').next().map_or(false, |c| c == "." || c == "..");
     let mut p: &str = &world;
     loop {
+        if !rooted && !dotted && (p == base || !is_below(p, base)) {
+            return false;
+        }
         if matches!(model.get(p), Some(i) if matches!(i.kind, Kind::Link { .. })) {
             return true;
         }
